@@ -90,6 +90,15 @@ func sameVec(a, b []*big.Int) bool {
 
 // Do executes one operation as one case.
 func (rn *Runner) Do(op *Op) (State, State) {
+	if strings.HasPrefix(rn.tag, "gen:") && op.Kind != OpEndBlock {
+		// every address-typed field is spelled in upper case with probability 1/10
+		for _, f := range []int{UpSender, UpValidator, UpDeputy} {
+			if rn.R.Chance(1, 10) {
+				op.Up |= f
+			}
+		}
+		rn.St.Count(fmt.Sprintf("spelling:%d", op.Up))
+	}
 	pre := rn.dump()
 	rn.W.Apply(op, rn.TNext)
 	rn.invalidate()
@@ -723,6 +732,65 @@ func (rn *Runner) FreePublishing() {
 	}
 }
 
+// Spelling: the same account under both spellings of its bech32 address (all lower / all upper:
+// same bytes, same signer) in every address-typed field of every x/da message: a second challenge,
+// a second proof, deputy registration and unregistration under the other spelling, publisher and
+// challengers stored in upper case and paid out at resolution.
+func (rn *Runner) Spelling() {
+	rn.tag = "corpus:address-spelling"
+	rn.NewWorldN(6, false)
+	a := func(i int) int { return rn.W.AcctIDs[i] }
+	v := func(i int) int { return rn.W.ValIDs[i] }
+	rn.SetParams(PSet{Thr: "0.5", RF: "1", CP: 10 * time.Second, PP: 10 * time.Second, Rej: 12 * time.Second, Ver: 12 * time.Second,
+		PC: [2]int64{1000, 7}, IC: [2]int64{100, 3}})
+	do := func(op *Op) int { rn.Do(op); return op.Res }
+	pub := func(sender, n int, parity uint64, up int) int {
+		u := rn.W.NextURI
+		rn.W.NextURI++
+		do(&Op{Kind: OpPublish, Sender: sender, URI: u, N: n, Parity: parity, Up: up})
+		return u
+	}
+	inval := func(sender, uri, up int, idx ...int64) int {
+		return do(&Op{Kind: OpInval, Sender: sender, URI: uri, Idx: idx, Up: up})
+	}
+	proof := func(sender, val, uri, up int, idx ...int64) int {
+		var pr [][]byte
+		for _, i := range idx {
+			pr = append(pr, rn.W.Pool.Proofs[int(i)%len(rn.W.Pool.Proofs)])
+		}
+		return do(&Op{Kind: OpProof, Sender: sender, Val: val, URI: uri, Idx: idx, Proofs: pr, Up: up})
+	}
+	uX := pub(a(0), 4, 2, UpSender) // publisher stored in upper case
+	uY := pub(a(0), 4, 0, 0)
+	pub(a(3), 2, 0, UpSender) // expires unchallenged: refund to an upper-case publisher
+	inval(a(1), uX, 0, 3)
+	inval(a(1), uX, UpSender, 2) // the same account again, other spelling
+	inval(a(2), uX, UpSender, 2, 3)
+	inval(a(2), uX, 0, 3) // and the other way round
+	inval(a(1), uY, UpSender, 0, 1)
+	inval(a(1), uY, 0, 2)
+	inval(a(1), uY, UpSender, 3)
+	_, post, _ := rn.EndBlock() // X and Y challenging
+	ts := findItem(post, uX).Ts
+	proof(v(0), v(0), uX, 0, 0, 1)
+	proof(v(0), v(0), uX, UpSender|UpValidator, 0, 1) // second proof of the same validator
+	proof(v(1), v(1), uX, UpValidator, 0, 1)
+	proof(v(2), v(2), uX, UpSender, 0)
+	do(&Op{Kind: OpReg, Sender: v(3), Deputy: a(4), Up: UpSender | UpDeputy})
+	proof(a(4), v(3), uX, UpSender, 1)
+	proof(a(4), v(3), uX, UpValidator, 0, 1)
+	do(&Op{Kind: OpUnreg, Sender: v(3)}) // registered in upper case, unregistered in lower case
+	do(&Op{Kind: OpUnreg, Sender: v(3), Up: UpSender})
+	proof(a(4), v(3), uX, 0, 1)
+	do(&Op{Kind: OpReg, Sender: v(3), Deputy: a(4)})
+	do(&Op{Kind: OpReg, Sender: v(3), Deputy: a(5), Up: UpSender}) // replaces, not a second entry
+	do(&Op{Kind: OpUnreg, Sender: v(3), Up: UpSender})
+	rn.EndBlock()
+	rn.BlockAt(ns(ts + 10_000_000_000)) // X verified by tally (right challengers refunded), Y rejected
+	rn.BlockAt(ns(ts + 23_000_000_000))
+	rn.finish()
+}
+
 // RejectShares: rejected items with k = 1..9 challengers whose publish collateral leaves every
 // interesting remainder modulo k (0, 1, k/2, k/2+1, k-1; the quotient is odd so that a remainder of
 // exactly k/2 is rounding-sensitive too), two remainder classes per item (one per denom). The items
@@ -1178,6 +1246,7 @@ func Run(prof Profile, seed int64, n int, outDir string) error {
 	rn.Corpus()
 	rn.SameBlock()
 	rn.FreePublishing()
+	rn.Spelling()
 	rn.RejectShares()
 	if zeroGuarded(prof) {
 		rn.ZeroThreshold()
